@@ -97,6 +97,20 @@ struct Consts {
 };
 static inline const Consts& K() { static Consts k; return k; }
 
+// Scalars k = c0 + c1*lambda (mod r) - lambda = -x^2 is the eigenvalue of the G1 endomorphism - whose two halves are built so that the
+// interleaved two-dimensional ladder meets one of the exceptional cases of the addition formulas part-way: after the digits above bit t
+// the accumulator is (+-d0*x^2 + (+-d1)*lambda)*P, the same point as (or the inverse of, or a neighbour of) the table entry +-d*lambda*P
+// that is added next. d0, d1 odd and small (table entries), t = position of the collision, low parts below 2^t from eseed (0 = none).
+static inline Bn glv_scalar(int d0, int d1, int t, int signs, uint64_t eseed) {
+    const Bn& r = K().r; Bn lambda = Bn::sub(r, K().x2);
+    uint64_t st = eseed * 0x9E3779B97F4A7C15ull + 777; auto rnd = [&]() { st ^= st << 13; st ^= st >> 7; st ^= st << 17; return st; };
+    Bn c0 = Bn::mul(Bn((uint64_t) d0), K().x2).shl(t), c1 = Bn((uint64_t) d1).shl(t);
+    if (eseed && t > 0) { Bn m = Bn(1).shl(t < 60 ? t : 60); c0 = Bn::add(c0, Bn::mod(Bn(rnd()), m)); c1 = Bn::add(c1, Bn::mod(Bn(rnd()), m)); }
+    Bn a = Bn::mod(c0, r), b = Bn::mulmod(c1, lambda, r);
+    if (signs & 1) a = Bn::submod(Bn(0), a, r); if (signs & 2) b = Bn::submod(Bn(0), b, r);
+    return Bn::addmod(a, b, r);
+}
+
 // Digit tuples (c0..c3, each < |x|, value below r) for the random-exponent sampler whose recombination has a carry that must ripple
 // through an all-ones 64-bit limb - the place where a hand-rolled multi-limb accumulation loses it:
 //   k = 0: y - c0 has limb 1 = 2^64-1 and limb 0 + c0 wraps (any evaluation order passes a carry through limb 1 when c0 goes in)
